@@ -1739,6 +1739,9 @@ impl SymbolTable {
         for symbols in self.name_table.values_mut() {
             symbols.retain(|x| !drop_list.contains(x));
         }
+        // `resolve` branches on `name_table.contains_key`: a name whose last
+        // symbol was dropped must look like a name that was never declared.
+        self.name_table.retain(|_, symbols| !symbols.is_empty());
 
         for tokens in self.reference_table.values_mut() {
             tokens.retain(|x| !is_drop_token(x, file_path, prj));
